@@ -34,7 +34,7 @@ MANIFEST_ENTRY = {
         "from $Time$ requests) repaired by a fix: commit. Float steps (timescale_to_timedelta, scale_timedelta) "
         "are parameters/validated below 2^53. URL round trip of start/depth is exercised end to end, its "
         "codecs are proved under C07/C19. Flask routing, DB lookup, MP4 re-encoding not modelled."),
-    "technique": "Lean 4 proof (slice of the global sequence + floor-division/leeway inequalities via linarith) + model/implementation correspondence",
+    "technique": "Lean 4 proof (slice of the global sequence + floor-division/leeway inequalities via linarith) + source-to-Lean translation re-proved equal to the model each run + model/implementation correspondence",
 }
 PROP_FILES = ["DashLive/Props/C01.lean", "DashLive/Props/GenTie.lean", "DashLive/Props/GenTieTimeline.lean", "DashLive/Props/GenTieLiveIndex.lean", "DashLive/Props/Generated.lean"]
 LEAN_TARGETS = ["DashLive.Props.C01", "DashLive.Props.GenTie", "DashLive.Props.GenTieTimeline", "DashLive.Props.GenTieLiveIndex", "DashLive.Props.Generated"]
@@ -59,6 +59,7 @@ def _gen_arith():
 
 GENERATORS = [_gen_options, _gen_arith]
 TRUSTED = [
+    "harness/gen_arith.py, gen_timeline.py, gen_liveindex.py, pytolean.py: Python source text -> Lean translation of get_segment_index, generateSegmentTimeline and the media handler index calculation (semantics of the accepted subset, see DESIGN 4); Props/GenTie*.lean prove the translated definitions equal to the model",
     "harness/segwalk.py (client-side MPD reading incl. the ISO/IEC 23009-1 5.3.9.5.3 window), mp4walk, mp4synth, /verif/shims",
     "timescale_to_timedelta (float) is a model parameter fed with the implementation's value; ConvSpec (within 1 us) is checked on every value used",
 ]
